@@ -66,8 +66,9 @@ def apply_codes(state, codes):
     """Apply a list of integer codes to a state; returns the new state.
 
     Extended colour groups are recognised at any position.  An incomplete
-    group at the tail contributes nothing; an incomplete group followed by
-    other codes, and colour components outside 0..255, raise Ambiguous."""
+    group at the tail contributes nothing; an introducer that is not followed
+    by a 5/2 selector contributes nothing by itself (reading resumes at the
+    next code); colour components outside 0..255 raise Ambiguous."""
     st = dict(state)
     i = 0
     n = len(codes)
@@ -98,7 +99,10 @@ def apply_codes(state, codes):
                 st[EXT[c]] = (c, 2) + rgb
                 i += 5
             else:
-                raise Ambiguous('extended colour introducer followed by %r' % (m,))
+                # introducer without a 5/2 selector: the incomplete group is the introducer alone; it contributes
+                # nothing and reading resumes at the next code, so that a complete group right after it stays
+                # intact ("extended-colour groups are kept intact at any position")
+                i += 1
         elif c in TABLE:
             g, f = TABLE[c]
             if f == 'set':
